@@ -67,7 +67,7 @@ static FILE *trace, *schedout;
 static int ending, finished;
 static int is_child; static const char *trace_path; static int create_fail_at = -1, ncreates;
 static void (*sighandler)(void);
-static int sig_budget, sig_nest_max = 1, spur_budget, eintr_budget, futex_enosys, membarrier_ok = 1;
+static int sig_futex; static int sig_budget, sig_nest_max = 1, spur_budget, eintr_budget, futex_enosys, membarrier_ok = 1;
 static int watch_plain;
 static void (*unknown_ptr_hook)(const char *var, unsigned long v);
 void vrt_set_unknown_ptr_hook(void (*fn)(const char *var, unsigned long v)) { unknown_ptr_hook = fn; }
@@ -265,6 +265,9 @@ static void schedule(void)
 			if (solo < 0 && sighandler && sig_budget > 0 && sig_at < 0 && T[i].state == ST_RUN && !T[i].daemon && T[i].sig_ok && !T[i].sigblocked && T[i].in_sig < sig_nest_max && T[i].primed
 			    && T[i].nsb == 0) cand[n++] = 2 * MAXT + i;	/* delivery goes through the kernel: full barrier */
 			if (solo < 0 && T[i].state == ST_BLOCK_FUTEX && !T[i].woken && (spur_budget > 0 || eintr_budget > 0)) cand[n++] = 3 * MAXT + i;
+			/* VRT_SIG_FUTEX=1: a signal may also hit a thread asleep in FUTEX_WAIT: the handler runs, then the wait returns EINTR (no SA_RESTART) */
+			if (solo < 0 && sig_futex && sighandler && sig_budget > 0 && sig_at < 0 && T[i].state == ST_BLOCK_FUTEX && !T[i].woken && !T[i].daemon && T[i].sig_ok
+			    && !T[i].sigblocked && T[i].in_sig < sig_nest_max && T[i].nsb == 0) cand[n++] = 2 * MAXT + i;
 		}
 		/* fault agents alone cannot keep a run alive */
 		int real = 0; for (i = 0; i < n; i++) if (cand[i] < 2 * MAXT) real++;
@@ -321,7 +324,9 @@ static void schedule(void)
 		}
 		if (c >= 3 * MAXT) { int t = c - 3 * MAXT; T[t].woken = 1;
 			if (spur_budget > 0) { spur_budget--; T[t].wake_kind = 1; } else { eintr_budget--; T[t].wake_kind = 2; } continue; }
-		if (c >= 2 * MAXT) { int t = c - 2 * MAXT; sig_budget--; T[t].sig_pending++; c = t; }
+		if (c >= 2 * MAXT) { int t = c - 2 * MAXT; sig_budget--; T[t].sig_pending++;
+			if (T[t].state == ST_BLOCK_FUTEX) { T[t].woken = 1; T[t].wake_kind = 2; }	/* interrupted sleep: EINTR after the handler */
+			c = t; }
 		else if (c >= MAXT) { flush1(c - MAXT); continue; }
 		handoff(c);
 		return;
@@ -751,6 +756,7 @@ void vrt_run(const struct vrt_opts *o)
 	vrt_tso = o->tso;
 	uniform = o->mode && !strcmp(o->mode, "uniform");
 	budget = envi("VRT_BUDGET", 20000); pct_len = envi("VRT_LEN", 150); nchg = envi("VRT_DEPTH", 3); if (nchg > 8) nchg = 8;
+	sig_futex = envi("VRT_SIG_FUTEX", 0);
 	sig_budget = envi("VRT_SIGS", 0); sig_nest_max = envi("VRT_SIGNEST", 1);
 	spur_budget = envi("VRT_SPURIOUS", 0); eintr_budget = envi("VRT_EINTR", 0); futex_enosys = envi("VRT_FUTEX_ENOSYS", 0);
 	membarrier_ok = envi("VRT_MEMBARRIER", 1); solo_budget = envi("VRT_SOLO_BUDGET", 3000);
